@@ -11,7 +11,9 @@ RULE = ('three kinds of cases. ctrl (60%): twin worlds driven by the same random
         '(create_entity / add_component / remove_component / delete_entity deferred+immediate / '
         'process / dispatch_enabled toggles / processors) over 2-5 component classes and 1-3 '
         'Controller subclasses (random DAGs), 1-4 entities, instances re-attached now and then '
-        '(on_add runs again); every shorthand (six methods, also '
+        '(on_add runs again); 55% of the cases keep reading the same reference of one '
+        'controller while its entity is changed directly / through other controllers / deleted and '
+        'rebuilt / the controller moves; every shorthand (six methods, also '
         'as module-level functions, ComponentReference and ProcessorReference get/set/del, '
         'desper.controller()) is issued through a controller on world A and as the plain World '
         'call for the owner entity on world B; results, callbacks and a full public snapshot '
@@ -88,9 +90,13 @@ def gen_ctrl(rng):
     ne = rng.randint(1, 4)
     ents = list(range(1, ne + 1))
     nops = rng.randint(4, 22)
-    # component pool: instances are attached at most once, so create plenty
+    # half of the cases keep coming back to one controller: the same reference is read again
+    # and again while its entity is changed behind its back (stale-state bugs)
+    focus_mode = rng.random() < 0.55
+    if focus_mode:
+        nops = rng.randint(10, 26)
     comps = []
-    for _ in range(rng.randint(6, 16)):
+    for _ in range(rng.randint(12, 22) if focus_mode else rng.randint(6, 16)):
         if rng.random() < 0.45:
             comps.append(['k', rng.randrange(nkt)])
         else:
@@ -98,6 +104,9 @@ def gen_ctrl(rng):
     nplain = rng.randint(0, 2)
     comps += [['plain', 0]] * nplain
     procs = [rng.randrange(npt) for _ in range(rng.randint(1, 4))]
+    fpt = rng.choice(procs)             # the processor type the focus controller keeps reading
+    if focus_mode:
+        procs += [fpt] * rng.randint(1, 2)
     pprio = [rng.choice([None, -1, 0, 1]) for _ in range(npt)]
 
     def tyid(c):
@@ -146,10 +155,125 @@ def gen_ctrl(rng):
                 return unused.pop(i)
         return None
 
+    focus = [None]
+    script = []
+    plist = list(range(len(procs)))
+
+    def take_type(ty):
+        for i, c in enumerate(unused):
+            if tyid(c) == ty:
+                used.append(c)
+                return unused.pop(i)
+        return None
+
+    def focused():
+        """one op around the focus controller; None if nothing sensible can be done"""
+        nonlocal enabled
+        k = focus[0]
+        if k not in where:
+            return None
+        if not enabled:
+            enabled = True
+            for x in delivered:
+                delivered[x] = True
+            return ['enable', True]
+        if not delivered.get(k):
+            return None
+        e = where[k]
+        here = [c for c in where if where[c] == e and c != k]
+        others = [c for c in here if comps[c][0] == 'k' and delivered.get(c)]
+        if script:                                    # the rest of a read / move / read again
+            step = script.pop(0)
+            if step[0] == 'move':
+                attach(step[1], k)
+                return ['add', step[1], k]
+            return ['short', k, e, step[1], step[2]]
+        q = rng.random()
+        if q < 0.42:                                  # read again
+            tys = sorted({u for c in here for u in alltypes if issub(tyid(c), u)}) or alltypes
+            t = rng.choice(tys) if rng.random() < 0.85 else rng.choice(alltypes)
+            z = rng.random()
+            if z < 0.5:
+                return ['short', k, e, ['refget', t], 'method']
+            if z < 0.58:
+                return ['short', k, e, ['sget', t], rng.choice(['method', 'function'])]
+            if z < 0.66:
+                return ['short', k, e, ['sgetall'], rng.choice(['method', 'function'])]
+            if z < 0.72:
+                return ['short', k, e, ['shas', t], rng.choice(['method', 'function'])]
+            # the same processor reference, most of the time
+            pt = fpt if rng.random() < 0.8 else rng.randrange(npt)
+            return ['short', k, e, ['prefget', PT0 + rng.choice(panc[pt])], 'method']
+        if q < 0.70 and here:                         # replace a component of the same exact type
+            old = rng.choice(here)
+            new = take_type(tyid(old))
+            if new is None:
+                return None
+            attach(e, new)
+            z = rng.random()
+            if z < 0.4:
+                return ['add', e, new]
+            if z < 0.7 and others:
+                return ['short', rng.choice(others), e, ['sadd', new], 'method']
+            return ['short', k, e, ['sadd', new], rng.choice(['method', 'function'])]
+        if q < 0.78 and here:                         # remove behind its back
+            c0 = rng.choice(here)
+            t = rng.choice([u for u in alltypes if issub(tyid(c0), u)] or alltypes)
+            detach_type(e, lambda u: issub(u, t))
+            if k not in where:
+                return ['remove', e, t]
+            if others and rng.random() < 0.4:
+                k2 = rng.choice(others)
+                if k2 in where:
+                    return ['short', k2, e, ['sremove', t], 'method']
+            return ['remove', e, t]
+        if q < 0.84:                                  # another type joins
+            new = take('c')
+            if new is None:
+                return None
+            attach(e, new)
+            return ['add', e, new]
+        if q < 0.90:                                  # processors change on the world
+            z = rng.random()
+            same = [p for p in plist if procs[p] == fpt]
+            if z < 0.55 and same:
+                return ['addproc', rng.choice(same)]  # replaces the one of that exact type
+            if z < 0.8:
+                return ['addproc', rng.choice(plist)]
+            return ['remproc', PT0 + (fpt if rng.random() < 0.6 else rng.randrange(npt))]
+        if q < 0.97 and len(ents) > 1:                # the controller moves to another entity
+            e2 = rng.choice([x for x in ents if x != e])
+            tys = sorted({u for c in here for u in alltypes if issub(tyid(c), u)}) or alltypes
+            t = rng.choice(tys)
+            sh = rng.choice([['shas', t], ['sget', t], ['sgetall'], ['refget', t]])
+            form = rng.choice(['method', 'function']) if sh[0] != 'refget' else 'method'
+            script.extend([['move', e2], ['read', sh, form]])
+            return ['short', k, e, sh, form]
+        detach_type(e, lambda u: True)                # the entity is deleted and built anew
+        pending.discard(e)
+        return ['delete', e, True]
+
     for _ in range(nops):
         r = rng.random()
         ctrls = [k for k in where if comps[k][0] in ('k',) and delivered.get(k)]
         free = [k for k in delivered if comps[k][0] == 'plain' and delivered[k]]
+        if focus_mode and focus[0] is None and ctrls:
+            focus[0] = rng.choice(ctrls)
+        if focus_mode and focus[0] is not None and rng.random() < 0.7:
+            if focus[0] not in where:                 # deleted / removed: attach it again
+                e = rng.choice(ents)
+                cs = [focus[0]]
+                c = take('c')
+                if c is not None:
+                    cs.append(c)
+                for c in cs:
+                    attach(e, c)
+                ops.append(['create', e, cs])
+                continue
+            o = focused()
+            if o is not None:
+                ops.append(o)
+                continue
         if r < 0.18 or not where:
             e = rng.choice(ents)
             cs = []
@@ -895,13 +1019,20 @@ def nontrivial(case, trace):
 def stats(cases, traces):
     kinds, shorts, combos = {}, {}, {}
     d = dict(short_on_pending_entity=0, short_while_disabled=0, nonexact_picks=0, reattached=0,
+             repeated_reference_reads=0,
              proto_custom_prefix=0, proto_typeerror=0, upd_frames=0, upd_frames_2plus=0)
     for c, t in zip(cases, traces):
         kinds[c['kind']] = kinds.get(c['kind'], 0) + 1
         if c['kind'] == 'ctrl' and 'obs' in t:
             enabled = True
             seen_c = set()
+            reads = set()
             for o, ob in zip(c['ops'], t['obs']):
+                if o[0] == 'short' and o[3][0] in ('refget', 'prefget'):
+                    key = (o[1], o[3][0], o[3][1])
+                    if key in reads:
+                        d['repeated_reference_reads'] += 1
+                    reads.add(key)
                 att = (o[2] if o[0] == 'create' else [o[2]] if o[0] == 'add' else
                        [o[3][-1]] if o[0] == 'short' and o[3][0] in ('sadd', 'refset') else [])
                 for x in att:
